@@ -57,15 +57,51 @@ type HistRun struct {
 
 // runHistory executes ops on a fresh Muxer. Auto-assigned PIDs are learnt from the next PMT the muxer emits.
 func runHistory(ops []HOp, period int) *HistRun {
+	st := newHistStepper(ops, period)
+	for !st.Done() {
+		st.Step()
+	}
+	return st.Run()
+}
+
+// histStepper executes a history one operation at a time (so that several Muxers can be driven in turns).
+type histStepper struct {
+	ops           []HOp
+	k             int
+	stopped       bool
+	tap           *mon.WTap
+	hr            *HistRun
+	m             *astits.Muxer
+	streams       []*hStream
+	pcr           uint16
+	auto          map[int]*hStream
+	shared        map[int]*astits.PacketAdaptationField
+	sharedContent map[int]*astits.PacketAdaptationField
+}
+
+func newHistStepper(ops []HOp, period int) *histStepper {
 	tap := mon.NewWTap()
-	hr := &HistRun{Period: period, Tap: tap}
-	m := astits.NewMuxer(context.Background(), tap, astits.MuxerOptTablesRetransmitPeriod(period))
-	var streams []*hStream
-	var pcr uint16
-	auto := map[int]*hStream{}
-	shared := map[int]*astits.PacketAdaptationField{}
-	sharedContent := map[int]*astits.PacketAdaptationField{}
-	for k, op := range ops {
+	return &histStepper{ops: ops, tap: tap, hr: &HistRun{Period: period, Tap: tap},
+		m:    astits.NewMuxer(context.Background(), tap, astits.MuxerOptTablesRetransmitPeriod(period)),
+		auto: map[int]*hStream{}, shared: map[int]*astits.PacketAdaptationField{}, sharedContent: map[int]*astits.PacketAdaptationField{}}
+}
+
+func (h *histStepper) Done() bool { return h.stopped || h.k >= len(h.ops) }
+
+// Run returns the history executed so far.
+func (h *histStepper) Run() *HistRun {
+	h.hr.Out = h.tap.Buf
+	return h.hr
+}
+
+func (h *histStepper) Step() {
+	if h.Done() {
+		return
+	}
+	k, op := h.k, h.ops[h.k]
+	h.k++
+	tap, m, ops, shared, sharedContent, auto := h.tap, h.m, h.ops, h.shared, h.sharedContent, h.auto
+	{
 		if op.Kind == "data" && op.SharedAF > 0 && op.Data.AdaptationField != nil {
 			if shared[op.SharedAF] == nil {
 				shared[op.SharedAF] = mon.Clone(op.Data.AdaptationField)
@@ -99,15 +135,15 @@ func runHistory(ops []HOp, period int) *HistRun {
 					if op.PID == 0 {
 						auto[op.Slot] = s
 					}
-					streams = append(streams, s)
+					h.streams = append(h.streams, s)
 					call.Changed = true
 				}
 			case "remove":
 				call.Err = m.RemoveElementaryStream(pid)
 				if call.Err == nil {
-					for i, s := range streams {
+					for i, s := range h.streams {
 						if s.Known && s.PID == pid {
-							streams = append(append([]*hStream{}, streams[:i]...), streams[i+1:]...)
+							h.streams = append(append([]*hStream{}, h.streams[:i]...), h.streams[i+1:]...)
 							break
 						}
 					}
@@ -115,7 +151,7 @@ func runHistory(ops []HOp, period int) *HistRun {
 				}
 			case "pcr":
 				m.SetPCRPID(pid)
-				pcr = pid
+				h.pcr = pid
 				call.Changed = true
 			case "tables":
 				call.N, call.Err = m.WriteTables()
@@ -136,17 +172,15 @@ func runHistory(ops []HOp, period int) *HistRun {
 		call.End = len(tap.Buf)
 		// learn auto PIDs from a PMT emitted during this call
 		if call.End-call.Start >= 376 {
-			learnAutoPIDs(tap.Buf[call.Start:call.End], streams)
+			learnAutoPIDs(tap.Buf[call.Start:call.End], h.streams)
 		}
-		call.Streams = append([]*hStream{}, streams...)
-		call.PCRPID = pcr
-		hr.Calls = append(hr.Calls, call)
+		call.Streams = append([]*hStream{}, h.streams...)
+		call.PCRPID = h.pcr
+		h.hr.Calls = append(h.hr.Calls, call)
 		if p {
-			break
+			h.stopped = true
 		}
 	}
-	hr.Out = tap.Buf
-	return hr
 }
 
 // learnAutoPIDs decodes the first PMT (PID 0x1000) in out and assigns the PIDs of not yet known streams by position.
